@@ -31,7 +31,13 @@ MANIFEST = dict(
         "the model of computeBias (free-variable mean, else midpoint of the two bounds; variables with an empty box interior "
         "skipped) satisfies g_i - b <= eps for i not at the upper and b - g_j <= eps for j not at the lower bound, for gradients "
         "inside the C++ sentinel range [-1e100,1e100] (bias_sentinel_witness outside; bias_degenerate_box_instance_repaired); "
-        "unpermute_correct -- getUnpermutedAlpha inverts every injective accumulated permutation. "
+        "unpermute_correct -- getUnpermutedAlpha inverts every injective accumulated permutation. Widened trainers: csvmInit2_inv "
+        "(class-specific C, per-example weights), epsInit_inv (2n-variable epsilon-regression problem) and oneClassInit_inv "
+        "(alpha = 1/n start, coefficient sum 1; via initWith_inv) show that these problems start inside the C08 invariant, "
+        "psd_block that the epsilon-regression block matrix [[K,K],[K,K]] is PSD when K is, so all theorems above apply to them; "
+        "warm starts: setInitialSolution_inv (the rebuilt gradient and edge gradient satisfy the invariant for any start vector "
+        "in the box), warmStart_in_box and warmStart_sum_zero (the clipped and re-balanced start vector of the repaired "
+        "CSvmTrainer::optimize lies in the per-example box and, with bias, sums to exactly 0), warm_start_inv. "
         "Tie: the Float instance of the trainer model (problem set-ups of CSvmTrainer with one or class-specific C and "
         "per-example weights, cold and warm start incl. clipping and re-balancing, of EpsilonSvmTrainer (2n-variable block "
         "problem, offset loop) and of OneClassSvmTrainer (alpha = 1/n start, offset loop); solver loop; un-permutation; "
